@@ -34,6 +34,8 @@ def run(prog, chk):
     from props import geomalg
     geomalg.check_sites(prog, chk, "C18")
     geomalg.check(prog, chk, "C18", floor=4)
+    from props import C10
+    C10.retry_progress(prog, chk)  # a template in a <specs> block written after its <reuse> is found on the retry: every success counts as progress
 
 
 def template_source(prog, chk):
